@@ -34,7 +34,32 @@ def trace_of(P, b, pi):
                 out.append("<block:%s>" % (kind_of(m.group(1)) if m else arg))
             else:
                 out.append("<%s>" % NONTERM[nm])
+        elif nm not in LOOKAHEAD:
+            cb = P.body(nm)
+            if cb is not None and cb.arg_count and re.match(r"^&mut parser::Parser\b", cb.locals[1]["ty"]) and _depth[0] < 3:
+                # another method of the parser (a helper the confirmed tree does not have): what it consumes on its
+                # Ok paths is part of the caller's trace; one unambiguous sequence is spliced in, anything else is named
+                _depth[0] += 1
+                try:
+                    sub = set()
+                    for pj in tab.paths(P, cb, to_return_only=True, limit=2000):
+                        if not pj.feasible():
+                            continue
+                        r = canon(pj.ret())
+                        if r.startswith("Result::Err") or r.startswith("FromResidual::from_residual") or "from_residual(" in r[:60]:
+                            continue
+                        sub.add(trace_of(P, cb, pj))
+                finally:
+                    _depth[0] -= 1
+                if len(sub) == 1:
+                    out.extend(next(iter(sub)))
+                else:
+                    out.append("<call:%s:%d-traces>" % (nm.split("::")[-1], len(sub)))
     return tuple(out)
+
+
+LOOKAHEAD = ("parser::Parser::peek", "parser::Parser::peek_span", "parser::Parser::at", "parser::Parser::text", "parser::Parser::finish")
+_depth = [0]
 
 
 def arm_traces(P, b, stop_bb):
@@ -123,6 +148,8 @@ def block_rules(chk, P):
             end = ordrules.ret_shape(pi)
         else:
             continue
+        if ("Eol", True) in facts_ and cons in (("get",), ("Eol",)):
+            cons = ("skip",)   # with an Eol known to be next, get() / expect(Eol) consume exactly what skip() does
         post.add((facts_, cons, end))
     want_post = {((("Eof", True),), (), "loop"), ((("Eof", False), ("Eol", True)), ("skip",), "loop"), ((("Eof", False), ("Eol", False)), ("get",), "Err")}
     bad = [p for p in post if p[2] == "loop" and p not in want_post] + [p for p in post if p[0] == (("Eof", False), ("Eol", False)) and p[2] != "Err"]
